@@ -307,9 +307,9 @@ fn dfs(sm: &SourceMap, hist: &mut Vec<MapOp>, depth: usize, seed: usize, seeds: 
 pub fn run(run: &mut Run) -> Finish {
     let tier = run.ctx.tier;
     // E1
-    let kmax = tier.pick(6, 8);
+    let kmax = tier.pick(7, 8);
     let nms = n_multisets_upto(POS.len(), kmax);
-    run.par_slice("E1: every multiset of <= 6/8 positions over 8 grid points (incl. (0,MAX), (MAX,0)), every insertion order (<= 4 tokens; rotations and reversal beyond), 3 constructions, full query grid", 1, nms, |idx, l| {
+    run.par_slice("E1: every multiset of <= 7/8 positions over 8 grid points (incl. (0,MAX), (MAX,0)), every insertion order (<= 4 tokens; rotations and reversal beyond), 3 constructions, full query grid", 1, nms, |idx, l| {
         let k = idx & ((1 << 40) - 1);
         let ms = multiset_upto_unrank(POS.len(), kmax, k);
         let n = ms.len();
@@ -385,10 +385,10 @@ pub fn run(run: &mut Run) -> Finish {
         l.case(true, h64(&("sizes", n, k % 3)));
     });
     // E2
-    let depth = tier.pick(4usize, 6);
+    let depth = tier.pick(5usize, 6);
     let seeds = seed_models();
     let nops = all_ops().len() as u64;
-    run.par_slice("E2: every history of <= 4/6 map-producing operations (4 rewrites, 6 adjust_mappings, 3 flattens, save+load) from each of 38 seed maps", 4, seeds.len() as u64 * nops, |idx, l| {
+    run.par_slice("E2: every history of <= 5/6 map-producing operations (4 rewrites, 6 adjust_mappings, 3 flattens, save+load) from each of 38 seed maps", 4, seeds.len() as u64 * nops, |idx, l| {
         let k = idx & ((1 << 40) - 1);
         let seed = (k / nops) as usize;
         let first = all_ops()[(k % nops) as usize];
